@@ -83,6 +83,13 @@ Theorem C14_call_flush_needed : forall s,
   en (fit_pos w s K) < en s <-> K * w_step w + w_dur w < en s - st s.
 Proof. exact (fun s => call_flush_needed w s). Qed.
 End C14.
+Theorem C14_call_ignores_the_windows_own_start_and_end : forall eps w1 w2 segments align_last,
+  w_dur w1 = w_dur w2 -> w_step w1 = w_step w2 ->
+  win_call eps w1 segments align_last = win_call eps w2 segments align_last.
+Proof. exact call_ignores_own_bounds. Qed.
+Theorem C14_call_skips_segments_shorter_than_the_window : forall eps w s align_last,
+  duration eps s < w_dur w -> call_one eps w s align_last = [].
+Proof. exact call_short_segment. Qed.
 
 (* ---- binary64 level (tolerance tier of the correspondence, Check/C14.v: KWinF) ----
    Position i as the code computes it, start + i * step with both operations rounded to nearest-even binary64 (Flocq's
@@ -125,5 +132,7 @@ Print Assumptions C14_range_centred.
 Print Assumptions C14_range_from_frame_0_extended.
 Print Assumptions C14_call_positions.
 Print Assumptions C14_call_flush_needed.
+Print Assumptions C14_call_ignores_the_windows_own_start_and_end.
+Print Assumptions C14_call_skips_segments_shorter_than_the_window.
 Print Assumptions Binary64.C14_binary64_position_error.
 Print Assumptions Binary64.C14_binary64_closest_frame_quotient_error.
